@@ -222,7 +222,11 @@ def _fit(acc, job, deadline):
                 cols[c] = pd.Series([np.float64(next(conc)) for _ in range(len(probe.index))], index=probe.index, dtype=object)
         grid = pd.DataFrame(cols)
         cw = real("cw", 0, 1)
-        gs = red.GridSearch(ExactLearner(), constraints=mc.make_moment(name, "difference", 0.01), grid=grid, constraint_weight=0.5)
+        if n % 2:
+            gs = red.GridSearch(ExactLearner(), constraints=mc.make_moment(name, "difference", 0.01), grid=grid, constraint_weight=0.5)
+        else:  # the user grid arrives through set_params after construction
+            gs = red.GridSearch(ExactLearner(), constraints=mc.make_moment(name, "difference", 0.01), constraint_weight=0.5)
+            gs.set_params(grid=grid)
         gs.constraint_weight = cw
         gs.objective_weight = 1 - cw
         try:
